@@ -172,6 +172,18 @@ func emOp(o Op) string {
 		}
 		ag := map[string]string{"sum": "GSum", "mean": "GMean", "count": "GCount"}[o.Agg]
 		return fmt.Sprintf("(OGroupAgg %s %s %s %s)", f, gk, ag, emStrs(o.Cols))
+	case "string":
+		return fmt.Sprintf("(OString %s)", f)
+	case "select":
+		return fmt.Sprintf("(OSelect %s %s)", f, emStr(o.S1))
+	case "colat":
+		return fmt.Sprintf("(OColAt %s %s %s)", f, emStr(o.S1), emZ(o.N))
+	case "series":
+		return fmt.Sprintf("(OSeries %s %s %s)", f, emStr(o.S1), emZ(o.N))
+	case "plot":
+		return fmt.Sprintf("(OPlot %s %s %s %s %s %s)", emBool(o.Bar), f, emStr(o.S1), emStr(o.S2), emBool(o.PathOK), emBool(o.RenderOK))
+	case "groupbyother":
+		return fmt.Sprintf("(OGroupbyOther %s %s)", f, emBool(o.KeyKind <= 2))
 	case "fromcsv":
 		return fmt.Sprintf("(OFromCSV %s)", emStr(o.Bytes))
 	case "csvroundtrip":
@@ -233,6 +245,8 @@ func emVal(v *Val) string {
 		return "(VGroups " + emList(v.Groups, func(g GroupObs) string {
 			return "(" + emCell(g.Key) + "," + emList(g.Rows, emKVs) + ")"
 		}) + ")"
+	case "cells":
+		return "(VCells " + emStr(v.Name) + " " + emCells(v.Cells) + ")"
 	case "filter":
 		return "(VFilter " + emFrame(*v.Frame) + " " + emList(v.Seen, emKVs) + ")"
 	}
